@@ -419,6 +419,19 @@ fn bgdeliver_worker(prop: &str, variant: &str, seed: u64, wid: u64, cases: u32, 
     nt.sort();
     s.5.sort();
     let pct = |q: f64| -> u64 { if s.5.is_empty() { 0 } else { s.5[((s.5.len() - 1) as f64 * q) as usize] / 1000 } };
+    // "within about one report interval", judged over the whole run: a span finishes at a random
+    // point of the collector's sleep, so the median wait is about half an interval (0.6-0.7 measured
+    // here under full load). A median above 2.5 intervals together with a lower quartile above 1.5
+    // intervals, over hundreds of records, is not a scheduling artefact (it means the collector
+    // cycles less than once per five intervals). The replay regenerates this worker's cases and measures again.
+    let interval_us = if interval_ms == 0 { 10_000 } else { interval_ms * 1000 };
+    if failure.is_null() && s.5.len() >= 200 && pct(0.5) * 2 > 5 * interval_us && pct(0.25) * 2 > 3 * interval_us {
+        failure = json!({
+            "signature": "no-flush:median-latency-above-2.5-intervals",
+            "program": {"bulk": {"seed": seed, "worker": wid, "cases": cases}},
+            "violations": [{"sig": "no-flush:median-latency-above-2.5-intervals", "msg": format!("over {} records of {} cases the median time from a span's finish to its report was {} us (p99 {} us); the report interval is {} us and nobody called flush()", s.5.len(), s.0, pct(0.5), pct(0.99), interval_us)}],
+        });
+    }
     let res = json!({
         "property": prop, "variant": variant, "cancelable": false, "seed": seed, "worker": wid,
         "evaluations": s.0, "nontrivial_hashes": nt.iter().map(|h| format!("{:016x}", h)).collect::<Vec<_>>(),
@@ -525,6 +538,29 @@ fn replay(args: &[String]) -> i32 {
     if v["variant"].as_str().map_or(false, |s| s.starts_with("bgdeliver")) {
         quiet_panics();
         bgdeliver::install(if v["variant"].as_str() == Some("bgdeliver25") { 25 } else { 0 });
+        if let Some(b) = v["program"].get("bulk") {
+            // an aggregate verdict: regenerate the worker's cases and measure the median again
+            let interval_us: u64 = if v["variant"].as_str() == Some("bgdeliver25") { 25_000 } else { 10_000 };
+            let (seed, wid, cases) = (b["seed"].as_u64().unwrap_or(0), b["worker"].as_u64().unwrap_or(0), b["cases"].as_u64().unwrap_or(100) as u32);
+            let prop = v["property"].as_str().unwrap_or("C01");
+            let variant = v["variant"].as_str().unwrap_or("bgdeliver");
+            let strategy = bgdeliver::strategy_for(prop);
+            let cfg = Config { cases: cases.min(120), failure_persistence: None, ..Config::default() };
+            let mut runner = TestRunner::new_with_rng(cfg, TestRng::from_seed(RngAlgorithm::ChaCha, &seed_bytes(seed, wid, variant)));
+            let lat = std::cell::RefCell::new(Vec::<u64>::new());
+            let _ = runner.run(&strategy, |c| {
+                lat.borrow_mut().extend(bgdeliver::run(&c).latencies_ns);
+                Ok(())
+            });
+            let mut l = lat.into_inner();
+            l.sort();
+            let p50 = if l.is_empty() { 0 } else { l[(l.len() - 1) / 2] / 1000 };
+            let p25 = if l.is_empty() { 0 } else { l[(l.len() - 1) / 4] / 1000 };
+            let bad = l.len() >= 100 && p50 * 2 > 5 * interval_us && p25 * 2 > 3 * interval_us;
+            println!("{}", serde_json::to_string_pretty(&json!({"violations": if bad { vec![json!({"sig": "no-flush:median-latency-above-2.5-intervals", "msg": format!("median finish-to-report latency {} us over {} records, interval {} us", p50, l.len(), interval_us)})] } else { vec![] },
+                "narrative": [format!("median {} us over {} records", p50, l.len())]})).unwrap());
+            return if bad { 1 } else { 0 };
+        }
         let c: bgdeliver::BgCase = serde_json::from_value(v["program"].clone()).expect("bgdeliver case");
         let mut fl = 0;
         let o = bg_run_believed(&c, &mut fl);
